@@ -105,6 +105,59 @@ def project(out, emb: Emb, nest=False):
     return recs
 
 
+def graph_signature(out, emb: Emb):
+    """graph data in lattice units: {"<kind>|<zone>|<graph type>": [polyline, ...]} (x = enthalpy, y = temperature)"""
+    sig = {}
+    for name, gs in (out.graphs or {}).items():
+        zname, _, kind = name.partition("/")
+        zone = 0 if zname == "Site" else int(zname[1:]) if zname[:1] == "Z" and zname[1:].isdigit() else -1
+        for gr in gs.graphs:
+            segs = [[(emb.untQ(p.x), emb.untT(p.y)) for p in sg.data_points] for sg in gr.segments]
+            sig.setdefault(f"{kind}|{zone}|{gr.type}", []).extend([sg for sg in segs if sg])
+    return sig
+
+
+def _near_polylines(p, polys, tx, ty):
+    """is point p within (tx, ty) of some segment of some polyline (box-scaled euclidean distance <= 1)?"""
+    px, py = p[0] / tx, p[1] / ty
+    for poly in polys:
+        pts = [(x / tx, y / ty) for x, y in poly]
+        if len(pts) == 1:
+            pts = pts * 2
+        for (x1, y1), (x2, y2) in zip(pts, pts[1:]):
+            dx, dy = x2 - x1, y2 - y1
+            L2 = dx * dx + dy * dy
+            t = 0.0 if L2 == 0 else max(0.0, min(1.0, ((px - x1) * dx + (py - y1) * dy) / L2))
+            if (px - x1 - t * dx) ** 2 + (py - y1 - t * dy) ** 2 <= 1.0:
+                return True
+    return False
+
+
+def graphs_differ(base_sig, var_sig, g, emb_b: Emb, emb_v: Emb):
+    """C12 for graph data: every curve of the variant run is the base run's curve (as a set of points of the plane, to display
+    rounding), record by record and graph type by graph type.  Returns a description of the first difference or None."""
+    zmap = (lambda k: {1: 2, 2: 1}.get(k, k)) if g == "zoneswap" else (lambda k: k)
+    tx = 3 * 0.01 / min(emb_b.c, emb_v.c) + 1e-6        # three display roundings (0.01) in lattice duty units
+    ty = 3 * 0.01 / min(emb_b.b, emb_v.b) + 1e-6
+    keys_b = set(base_sig)
+    keys_v = set()
+    for k in var_sig:
+        kind, zone, gt = k.split("|")
+        keys_v.add(f"{kind}|{zmap(int(zone))}|{gt}")
+    if keys_b != keys_v:
+        return dict(reason="different graph sets", only_base=sorted(keys_b - keys_v)[:4], only_variant=sorted(keys_v - keys_b)[:4])
+    for k in sorted(var_sig):
+        kind, zone, gt = k.split("|")
+        kb = f"{kind}|{zmap(int(zone))}|{gt}"
+        A, B = base_sig[kb], var_sig[k]
+        for P, Q, who in ((A, B, "base"), (B, A, "variant")):
+            for poly in P:
+                for p in poly:
+                    if not _near_polylines(p, Q, tx, ty):
+                        return dict(reason=f"a point of the {who} curve is not on the other", graph=kb, point=[round(p[0], 3), round(p[1], 3)])
+    return None
+
+
 def one_run(g, S, z, ladder, emb, extra_checks):
     run = dict(g=g, S=S, z=z, recs=[], err="", dtDefault=60, py=[])
     try:
@@ -126,6 +179,8 @@ def one_run(g, S, z, ladder, emb, extra_checks):
             run["err"] = "non-finite number in a record"
         else:
             run["recs"] = recs
+        if g in ("base", "perm", "split", "parallel", "zoneswap", "translate", "scale"):
+            run["gsig"] = graph_signature(out, emb)
         if extra_checks:
             # C14 structural clauses that are about the Python object, not about numbers
             js = out.model_dump_json()
@@ -158,6 +213,16 @@ def drive(args):
     for v in case["variants"]:
         emb = EMB_SHIFT if v["g"] == "translate" else EMB_SCALE if v["g"] == "scale" else EMB_BASE
         runs.append(one_run(v["g"], v["S"], v["z"], lad, emb, False))
+    # C12 on graph data (harness-side float comparison; records are compared by TLC)
+    embs = {"translate": EMB_SHIFT, "scale": EMB_SCALE}
+    bsig = runs[0].pop("gsig", None)
+    for r in runs[1:]:
+        vsig = r.pop("gsig", None)
+        if bsig is not None and vsig is not None and not runs[0]["err"] and not r["err"]:
+            d = graphs_differ(bsig, vsig, r["g"], EMB_BASE, embs.get(r["g"], EMB_BASE))
+            if d:
+                r["py"].append("C12.graph_data_invariant_under." + r["g"])
+                r["gdiff"] = d
     return dict(id=idx, S=case["S"], z=case["z"], lo=case["lo"], ladder=lad, mirrorC=case["mirrorC"], runs=runs)
 
 
@@ -166,7 +231,7 @@ def judge(events):
     tmp = Path(tempfile.mkdtemp(prefix="trace_"))
     try:
         tf = tmp / "trace.json"
-        ev = [dict(e, runs=[{k: v for k, v in r.items() if k != "py"} for r in e["runs"]]) for e in events]
+        ev = [dict(e, runs=[{k: v for k, v in r.items() if k not in ("py", "gdiff")} for r in e["runs"]]) for e in events]
         tf.write_text(json.dumps(ev))
         cfg = tmp / "trace.cfg"
         write_cfg(cfg, spec="Spec", constants=dict(Temps={0}, CPs={1}, DTCs={0}, LatentCPs=set(), ActStrict=True, ShiftByMin=True),
@@ -276,7 +341,7 @@ def site_leg(run, tier, names, accept):
             case = cases[ev["id"]]
             for c in sorted(fails):
                 if accept(c):
-                    run.violation(accept(c), case, dict(runs=[dict(g=r["g"], err=r["err"], recs=r["recs"]) for r in ev["runs"]]))
+                    run.violation(accept(c), case, dict(runs=[dict(g=r["g"], err=r["err"], recs=r["recs"], gdiff=r.get("gdiff")) for r in ev["runs"]]))
             if len(set(ev["z"])) > 1 or ev["lo"] > 0:
                 nontriv.add(json.dumps([ev["S"], ev["z"], ev["lo"]]))
         run.cov["samples"] += [{"config": name, "streams": c["S"], "zones": c["z"], "ladder": c["ladder"],
